@@ -29,25 +29,33 @@ Proof. vm_compute. reflexivity. Qed.
 Lemma gen_string_to_dtype_is_inverse : string_to_dtype_table = Dtype_swap dtype_to_string_table.
 Proof. reflexivity. Qed.
 
-(* the carrier tensor of the bfloat16 branch has 1-byte elements, and the numpy branch casts to bytes *)
-Lemma gen_carrier_size : Dtype_get bf16_carrier_dtype dtype_to_element_size_table = Some 1.
-Proof. vm_compute. reflexivity. Qed.
-
-Lemma gen_cast_itemsize : numpy_cast_itemsize = 1.
-Proof. vm_compute. reflexivity. Qed.
-
 (* item size of the buffer tensor_as_memoryview hands out for dtype d:
-     if tensor.dtype == torch.bfloat16: via untyped storage under the carrier tensor;  else numpy + cast *)
+     if tensor.dtype == torch.bfloat16: via untyped storage under the carrier tensor torch.empty((0), dtype=<carrier>)
+     else: numpy + memoryview.cast(<format>)                                                                    *)
 Definition C17_carrier (d : pystr) : option Z :=
   if Dtype_str_eqb d Dtype_bfloat16
   then Dtype_get bf16_carrier_dtype dtype_to_element_size_table
   else Some numpy_cast_itemsize.
 
-Lemma C17_carrier_is_1 d c : C17_carrier d = Some c -> c = 1.
+(* for every buffer-protocol dtype the carrier item size is positive and divides the element size
+   (so c * floor(esize * n / c) = esize * n for every n) *)
+Definition C17_carrier_ok (d : pystr) : bool :=
+  match Dtype_get d dtype_to_element_size_table, C17_carrier d with
+  | Some es, Some c => (0 <? c) && (es mod c =? 0)
+  | _, _ => false
+  end.
+
+Lemma gen_carrier_ok : forallb C17_carrier_ok buffer_protocol_supported_dtypes = true.
+Proof. vm_compute. reflexivity. Qed.
+
+Lemma C17_carrier_divides d es c :
+  In d buffer_protocol_supported_dtypes ->
+  Dtype_get d dtype_to_element_size_table = Some es -> C17_carrier d = Some c ->
+  0 < c /\ es mod c = 0.
 Proof.
-  unfold C17_carrier. destruct (Dtype_str_eqb d Dtype_bfloat16).
-  - rewrite gen_carrier_size. intros H; injection H as <-; reflexivity.
-  - rewrite gen_cast_itemsize. intros H; injection H as <-; reflexivity.
+  intros Hd Hes Hc. pose proof gen_carrier_ok as H. rewrite forallb_forall in H. specialize (H d Hd).
+  unfold C17_carrier_ok in H. rewrite Hes, Hc in H. apply andb_true_iff in H as [H1 H2].
+  apply Z.ltb_lt in H1. apply Z.eqb_eq in H2. split; assumption.
 Qed.
 
 (* ------------------------------------------------------------------ table properties *)
@@ -92,8 +100,8 @@ Section Gen.
     wf_layout E t ->
     llen (as_memoryview elem_bytes c t) = es * numel t.
   Proof.
-    intros _ Hes Hc Hlen Hwf. apply C17_carrier_is_1 in Hc. subst c.
-    exact (serialized_length E es elem_bytes (esize_positive d es Hes) Hlen t Hwf).
+    intros Hd Hes Hc Hlen Hwf. destruct (C17_carrier_divides d es c Hd Hes Hc) as [Hc0 Hdiv].
+    exact (serialized_length_divides E es elem_bytes (esize_positive d es Hes) Hlen c t Hc0 Hdiv Hwf).
   Qed.
 
   Lemma roundtrip_generated d es c (t : tensor E) :
@@ -104,8 +112,8 @@ Section Gen.
     wf_layout E t ->
     from_memoryview es (as_memoryview elem_bytes c t) (t_shape t) = Ok (map elem_bytes (elems t)).
   Proof.
-    intros _ Hes Hc Hlen Hwf. apply C17_carrier_is_1 in Hc. subst c.
-    exact (roundtrip E es elem_bytes (esize_positive d es Hes) Hlen t Hwf).
+    intros Hd Hes Hc Hlen Hwf. destruct (C17_carrier_divides d es c Hd Hes Hc) as [Hc0 Hdiv].
+    exact (roundtrip_divides E es elem_bytes (esize_positive d es Hes) Hlen c t Hc0 Hdiv Hwf).
   Qed.
 End Gen.
 
